@@ -148,6 +148,9 @@ impl Tokenizer {
     ) where
         C: ConnectorCost,
     {
+        #[cfg(feature = "verif")]
+        crate::verif::maybe_yield();
+
         let mut has_matched = false;
 
         let suffix = &sent.chars()[start_word..];
